@@ -443,13 +443,13 @@ struct ChannelWorld : World {
             }
             unsigned c = (unsigned)r.below(100);
             if (c < 30 || sent[s] == 0) {
-                pl.add("send", {s, (int64_t)pick_len(r, 8 << r.below(2)), (int64_t)pick_len(r, 8), (int64_t)(r.next() >> 1)});
+                pl.add("send", {s, (int64_t)pick_len(r, 8 << r.below(2)), (int64_t)pick_len(r, 8), (int64_t)(r.next() >> 1), (int64_t)r.chance(1, 8)});
                 sent[s]++;
             } else if (c < 70) {
                 // deliver: mostly the oldest undelivered packet (in order), sometimes any (reorder/dup)
                 int sel = r.chance(3, 4) ? -1 : (int)r.below(8);
                 int fk = faulty && r.chance(2, 5) ? 1 + (int)r.below(8) : 0;
-                pl.add("deliver", {s, sel, fk, (int64_t)(r.next() >> 1), (int64_t)r.chance(1, 3)});
+                pl.add("deliver", {s, sel, fk, (int64_t)(r.next() >> 1), (int64_t)r.chance(1, 3), (int64_t)r.chance(1, 8)});
             } else if (c < 75 && faulty) {
                 pl.add("drop", {s, (int64_t)r.below(8)});
             } else if (c < 80 && faulty) {
@@ -575,7 +575,10 @@ struct ChannelWorld : World {
         uint8_t model_n[16];
         store128(model_n, A.model);
         if (is_cpp(S.fam)) memcpy(p.nonce, model_n, 16); else memcpy(p.nonce, A.nonce, 16);
+        bool rng_dead = op.u(4) != 0;
+        if (rng_dead) { simrng_arm(simrng_cur(), 0, 1); if (c.record) c.run->fault("rng.dead_during_packet"); }
         p.ct = ep_encrypt(A, m, ad, &chunker, c.page, *c.run);
+        if (rng_dead) simrng_arm(simrng_cur(), 0, 0);
         if (c.record) { c.run->fold_bytes(p.ct); c.run->state(fmt("send/%d/%s/%s", cls, lenclass(mlen, S.fam), lenclass(adlen, S.fam))); }
         // C14: packet i equals the one-shot result under N+i (library one-shot as substrate)
         if (cls == INC || is_cpp(S.fam)) {
@@ -701,7 +704,12 @@ struct ChannelWorld : World {
         size_t mlen_rep = 0;
         bool wiped = false;
         g_inc_not_started = false;
+        // the system entropy source may be dead while a packet is processed (it only feeds masking randomness):
+        // what is accepted, returned and wiped must not depend on it
+        bool rng_dead = op.u(5) != 0;
+        if (rng_dead) { simrng_arm(simrng_cur(), 0, 1); if (c.record) c.run->fault("rng.dead_during_packet"); }
         int r = ep_decrypt(B, x, ad, m_out, &mlen_rep, &wiped, &chunker, c.page, *c.run);
+        if (rng_dead) simrng_arm(simrng_cur(), 0, 0);
         bool inc_started = !g_inc_not_started;
         bool accept = judge(c, S, B, x, ad, r, mlen_rep, wiped, m_out, "deliver");
         int cls = fam_cls(B.fam);
